@@ -212,3 +212,63 @@ func vmapConcLine(t []string) string {
 }
 
 func init() { handlers["vmapconc"] = vmapConcLine }
+
+// vmaplen <seed> <readers> <keys> : Length while another goroutine stores distinct keys (no deletes) and keeps forcing promotions of the
+// dirty table (Range, missed Loads): every Length lies between the number of stores completed before the call and the number started
+// before it returned — a linearizable count
+func vmapLenLine(t []string) string {
+	if len(t) != 4 {
+		return "bad-op"
+	}
+	var seed int64
+	var readers, keys int
+	fmt.Sscan(t[1], &seed)
+	fmt.Sscan(t[2], &readers)
+	fmt.Sscan(t[3], &keys)
+	rng := rand.New(rand.NewSource(seed))
+	m := &ds.ValueMap{}
+	var started, done int64
+	var bad atomic.Value
+	var stop int32
+	var wg sync.WaitGroup
+	for g := 0; g < readers; g++ {
+		wg.Add(1)
+		go func() {
+			defer wg.Done()
+			for atomic.LoadInt32(&stop) == 0 {
+				lo := atomic.LoadInt64(&done)
+				n := int64(m.Length())
+				hi := atomic.LoadInt64(&started)
+				if n < lo || n > hi {
+					bad.CompareAndSwap(nil, fmt.Sprintf("Length()=%d although %d stores had completed before the call and %d had started when it returned", n, lo, hi))
+					return
+				}
+			}
+		}()
+	}
+	plan := make([]int, keys)
+	for i := range plan {
+		plan[i] = rng.Intn(3)
+	}
+	for i := 0; i < keys; i++ {
+		atomic.AddInt64(&started, 1)
+		m.Store(fmt.Sprintf("k%d", i), ds.NewIntVal(ds.IntType(i)))
+		atomic.AddInt64(&done, 1)
+		switch plan[i] {
+		case 0:
+			m.Range(func(string, *ds.VMValue) bool { return true }) // promotes the dirty table
+		case 1:
+			for j := 0; j <= i+1; j++ {
+				m.Load("absent") // misses promote it too
+			}
+		}
+	}
+	atomic.StoreInt32(&stop, 1)
+	wg.Wait()
+	if b := bad.Load(); b != nil {
+		return "bad " + b.(string)
+	}
+	return fmt.Sprintf("ok keys=%d final=%d", keys, m.Length())
+}
+
+func init() { handlers["vmaplen"] = vmapLenLine }
